@@ -124,7 +124,7 @@ class Labware:
             A dictionary that names the content of non-empty real wells for composition tracking.
         """
         # sanity checking
-        if not isinstance(rows, int) or rows < 1:
+        if not isinstance(rows, int) or rows < 1 or rows > 26:
             raise ValueError(f"Invalid rows: {rows}")
         if not isinstance(columns, int) or columns < 1:
             raise ValueError(f"Invalid columns: {columns}")
@@ -134,7 +134,9 @@ class Labware:
             raise ValueError(f"Invalid max_volume: {max_volume}")
         if virtual_rows is not None and rows != 1:
             raise ValueError("When using virtual_rows, the number of rows must be == 1")
-        if virtual_rows is not None and virtual_rows < 1:
+        if virtual_rows is not None and (
+            not isinstance(virtual_rows, int) or virtual_rows < 1 or virtual_rows > 26
+        ):
             raise ValueError(f"Invalid virtual_rows: {virtual_rows}")
         if virtual_rows and not isinstance(self, Trough):
             warnings.warn(
